@@ -486,3 +486,30 @@ func genHistory(t *rapid.T, d *Desc, o HistOpts) []Step {
 	}
 	return h.steps
 }
+
+// genBystander: what another keyboard of the same model is doing while the device under test is played: a few note keys
+// pressed and left held (the same keys, so the same channels and pitches), some state-changing taps.
+func genBystander(t *rapid.T, d *Desc) []Step {
+	if rapid.IntRange(0, 5).Draw(t, "bystander") != 0 {
+		return nil
+	}
+	h := newHistState(d)
+	var stateKeys []uint16
+	for _, c := range h.actKeys {
+		if a := h.actions[c]; a != "panic" && a != "multinote" && a != "cc_learning" {
+			stateKeys = append(stateKeys, c)
+		}
+	}
+	sort.Slice(stateKeys, func(i, j int) bool { return stateKeys[i] < stateKeys[j] })
+	for i := rapid.IntRange(1, 6).Draw(t, "bystanderOps"); i > 0; i-- {
+		if len(stateKeys) > 0 && rapid.IntRange(0, 3).Draw(t, "bystanderState") == 0 {
+			h.tap(stateKeys[rapid.IntRange(0, len(stateKeys)-1).Draw(t, "bystanderStateKey")])
+		} else if len(h.noteKeys) > 0 {
+			k := h.noteKeys[rapid.IntRange(0, len(h.noteKeys)-1).Draw(t, "bystanderKey")]
+			if !h.down[k] {
+				h.toggle(k)
+			}
+		}
+	}
+	return h.steps
+}
